@@ -31,9 +31,23 @@ fn typed(lines: &[String]) -> Session {
 fn cmd(s: &mut Session, c: &str) -> (String, Stop) {
     let mark = s.mark();
     s.enter(c);
-    let mut used = 0;
-    let stop = drain_with_replies(s, &[], &mut used, CALLS);
+    let replies = s.auto_replies.clone();
+    let mut used = s.auto_pos;
+    let stop = drain_with_replies(s, &replies, &mut used, CALLS);
+    s.auto_pos = used;
     (transcript(s.events_since(mark), Norm::STD), stop)
+}
+
+/// `cmd` with the reply script rewound, for the command whose transcript is compared.
+fn cmd0(s: &mut Session, c: &str) -> (String, Stop) {
+    s.auto_pos = 0;
+    cmd(s, c)
+}
+
+fn typed_p(p: &Prog, lines: &[String]) -> Session {
+    let mut s = typed(lines);
+    s.auto_replies = p.replies.clone();
+    s
 }
 
 fn gen_prog_in(rng: &mut Rng, stop: bool, input: bool) -> Prog {
@@ -42,7 +56,8 @@ fn gen_prog_in(rng: &mut Rng, stop: bool, input: bool) -> Prog {
 }
 
 fn gen_prog(rng: &mut Rng, stop: bool) -> Prog {
-    gen_prog_in(rng, stop, false)
+    let input = rng.chance(1, 4);
+    gen_prog_in(rng, stop, input)
 }
 
 /// "IN <number>" -> "IN <label>" so that runs of differently numbered layouts compare equal.
@@ -89,8 +104,8 @@ impl Meta {
         let spelled = gen::render_spelled(&p, seed);
         let text = format!("{}\n--- respelled as ---\n{}", canon.join("\n"), spelled.join("\n"));
         mon::journal(&text);
-        let mut a = typed(&canon);
-        let mut b = typed(&spelled);
+        let mut a = typed_p(&p, &canon);
+        let mut b = typed_p(&p, &spelled);
         let differing = canon.iter().zip(spelled.iter()).filter(|(x, y)| x != y).count();
         ctx.eval(&text, differing >= 2);
         ctx.add("lines_respelled", differing as u64);
@@ -139,7 +154,7 @@ impl Meta {
         let mut p = gen_prog(rng, true);
         p.number(rng.range(1, 9) as u16, 3);
         let base = gen::render(&p);
-        let mut a = typed(&base);
+        let mut a = typed_p(&p, &base);
         let (ta, sa) = cmd(&mut a, "RUN");
         if sa == Stop::Budget {
             ctx.count("discarded_budget");
@@ -197,7 +212,7 @@ impl Meta {
         };
         let text = format!("{}\n--- {} ---\n{}", base.join("\n"), what, lines.join("\n"));
         mon::journal(&text);
-        let mut b = typed(&lines);
+        let mut b = typed_p(&p, &lines);
         let (tb, sb) = cmd(&mut b, "RUN");
         if sb == Stop::Budget {
             ctx.violation("no-stop", "layout:no-stop", "re-laid-out program does not stop", &text);
@@ -288,7 +303,7 @@ impl Meta {
             "STOP",
         ];
         let mut script: Vec<String> = vec![];
-        let mut s = typed(&l1);
+        let mut s = typed_p(&p1, &l1);
         script.extend(l1.iter().cloned());
         let n = rng.range(1, 5);
         for _ in 0..n {
@@ -341,9 +356,10 @@ impl Meta {
         script.push("RUN".into());
         let text = script.join("\n");
         mon::journal(&text);
-        let (t_hist, st) = cmd(&mut s, "RUN");
-        let mut f = typed(&l2);
-        let (t_fresh, st2) = cmd(&mut f, "RUN");
+        s.auto_replies = p2.replies.clone();
+        let (t_hist, st) = cmd0(&mut s, "RUN");
+        let mut f = typed_p(&p2, &l2);
+        let (t_fresh, st2) = cmd0(&mut f, "RUN");
         if st == Stop::Budget || st2 == Stop::Budget {
             ctx.count("discarded_budget");
             return;
@@ -535,6 +551,7 @@ impl Meta {
         // advance(s, k): Some(pending_prompt) when k calls were made without the program stopping
         let advance = |s: &mut Session, k: u64, used: &mut usize| -> Option<bool> {
             let mut pending = false;
+            let mut pending_key = false;
             let mut n = 0u64;
             while n < k {
                 if pending {
@@ -546,17 +563,19 @@ impl Meta {
                     s.enter(&r);
                     pending = false;
                 }
+                if pending_key {
+                    s.enter("");
+                    pending_key = false;
+                }
                 match s.step_q(1) {
                     Some(Stop::Input(..)) => pending = true,
-                    Some(Stop::Inkey) => {
-                        s.enter("");
-                    }
+                    Some(Stop::Inkey) => pending_key = true,
                     Some(_) => return None,
                     None => {}
                 }
                 n += 1;
             }
-            Some(pending)
+            Some(pending || pending_key)
         };
         let mut total = 0u64;
         {
@@ -575,6 +594,9 @@ impl Meta {
                 }
                 match probe_s.step_q(1) {
                     Some(Stop::Input(..)) => pending = true,
+                    Some(Stop::Inkey) => {
+                        probe_s.enter("");
+                    }
                     Some(_) => break,
                     None => {}
                 }
@@ -614,7 +636,7 @@ impl Meta {
                 None => continue,
             };
             let pr = s.rt.verif_probe();
-            if !matches!(pr.state, "Running" | "Input" | "InputRunning" | "InputRedo") {
+            if !matches!(pr.state, "Running" | "Input" | "InputRunning" | "InputRedo" | "Inkey") {
                 continue;
             }
             if pr.pc >= pr.direct_address {
@@ -651,7 +673,13 @@ impl Meta {
             let mut head = part1[..cut].to_string();
             if pending {
                 // interrupted at a prompt that was shown but not answered: CONT shows it again
-                if let Some(i) = head.rfind("<INPUT ") {
+                if head.ends_with("<INKEY>\n") {
+                    // the break forced a line break after the marker; keep it for the comparison below
+                    head.truncate(head.len() - 8);
+                    head.push('\n');
+                } else if head.ends_with("<INKEY>") {
+                    head.truncate(head.len() - 7);
+                } else if let Some(i) = head.rfind("<INPUT ") {
                     if head[i..].ends_with('>') && !head[i..].contains('\n') {
                         head.truncate(i);
                     }
@@ -686,7 +714,7 @@ impl Meta {
         let p1 = gen_prog(rng, true);
         let l1 = gen::render(&p1);
         let mut script: Vec<String> = l1.clone();
-        let mut s = typed(&l1);
+        let mut s = typed_p(&p1, &l1);
         // optionally run first (may stop inside loops/subroutines through STOP)
         if rng.chance(2, 3) {
             script.push("RUN".into());
@@ -745,9 +773,9 @@ impl Meta {
         script.push(fin.clone());
         let text = script.join("\n");
         mon::journal(&text);
-        let (t_hist, st) = cmd(&mut s, &fin);
-        let mut f = typed(&listing);
-        let (t_fresh, st2) = cmd(&mut f, &fin);
+        let (t_hist, st) = cmd0(&mut s, &fin);
+        let mut f = typed_p(&p1, &listing);
+        let (t_fresh, st2) = cmd0(&mut f, &fin);
         if st == Stop::Budget || st2 == Stop::Budget {
             ctx.count("discarded_budget");
             return;
